@@ -728,6 +728,13 @@ def rule_tap_param(ctx):
     ctx.ob(R, f"{TC}::TrafoController.initialize_control::re-read", ok,
            "initialize_control re-reads all tap parameters, then the side coefficients" if ok else
            f"initialize_control calls {calls}: tap_min / tap_max / tap_step_percent keep their creation-time values, a changed tap range is ignored", fic.loc())
+    fnd = ctx.repo.func(f"{TC}:TrafoController.nothing_to_do")
+    eg = next((st for st in ast.walk(fnd.node) if isinstance(st, ast.Assign) and norm(st.targets[0]) == "ext_grid_bus"), None)
+    v = norm(eg.value, 200) if eg is not None else ""
+    ok = eg is not None and "in_service" in v and "ext_grid" in v
+    ctx.ob(R, f"{TC}::TrafoController.nothing_to_do::ext-grid-in-service", ok,
+           "a transformer is left uncontrolled only when an IN-SERVICE ext_grid holds the voltage of its controlled bus" if ok else
+           f"`ext_grid_bus = {v[:90]}` also counts out-of-service ext_grids: a controller at such a bus does nothing and reports convergence", fnd.loc(eg) if eg is not None else fnd.loc())
     fcf = ctx.repo.func(f"{TC}:TrafoController._set_tap_side_coeff")
     br = [n for n in walk_no_nested(fcf.node) if isinstance(n, ast.If) and "single_index" in norm(n.test)]
     if not br:
@@ -789,6 +796,7 @@ def variants(repo):
     ct = "pandapower/control/controller/trafo/ContinuousTapControl.py"
     tc = "pandapower/control/controller/trafo_control.py"
     return [
+        V("out-of-service ext_grid disables the controller", tc, replace_once("np.isin(self.trafobus, net.ext_grid.loc[net.ext_grid.in_service, 'bus'].values)", "np.isin(self.trafobus, net.ext_grid.bus.values)"), "ext-grid-in-service"),
         V("initialize_control re-reads only the tap position", tc, in_function("initialize_control", replace_once("        self._set_tap_parameters(net)\n", "        self.tap_pos = read_from_net(net, self.element, self.element_index, \"tap_pos\", self._read_write_flag)\n")), "initialize_control::re-read"),
         V("characteristic control converged on any decrease", "pandapower/control/controller/characteristic_control.py", replace_once("np.all(np.abs(diff) < self.tol)", "np.all(diff < self.tol)"), "CONV-ABS"),
         V("levels truncated to integers", rc, replace_once("level = controller.level.apply(asarray).values", "level = controller.level.apply(asarray, dtype=np.int64).values"), "levels-not-truncated"),
